@@ -277,7 +277,10 @@ class Schema:
             lab = self.decode_label(sl, m); prefix += lab; m -= len(lab)
             if m == 0:
                 if Y is not None: ex = self.decode(Y, sl, env)
-                res[int(prefix, 2) if prefix else 0] = self.decode(X, sl, env)
+                raw = (sl.c.bits[sl.b:], sl.c.refs[sl.r:])
+                val = self.decode(X, sl, env)
+                if isinstance(val, dict) and '@c' in val: val['@raw'] = raw      # the encoded value as stored (for parsers that keep it raw)
+                res[int(prefix, 2) if prefix else 0] = val
                 if Y is not None: extras.append(ex)
             else:
                 for bit in '01':
